@@ -144,6 +144,15 @@ func factsProto() {
 			"SizeInfo: local partitions push nil, failing remote lookups push their error, closer closes errorCh, one receive per partition")
 	}
 	// ---------------- C11
+	// waiter ids travel inside replicated log entries and are looked up by every replica's apply loop: they have to be
+	// unique across nodes, i.e. drawn as random UUIDs, not numbered per registry
+	if txt, fd := bodyText("utils/notificator.go", "Notificator", "Create"); fd == nil {
+		unrec("notification_ids_global", "bool", "Notificator.Create not found")
+	} else {
+		known("notification_ids_global", "bool", b(strings.HasPrefix(txt, "{ id := uuid.NewV4() c := make(chan interface{}, bufSize)") &&
+			strings.Contains(txt, "this.chans[id] = c") && strings.HasSuffix(txt, "return c, id }") && strings.Count(txt, "id :=") == 1 && !strings.Contains(txt, "id =")),
+			"Notificator.Create draws the waiter id with uuid.NewV4() and registers the channel under it")
+	}
 	minBuf := -1
 	okBuf := true
 	for _, f := range []string{"storage/partition.go", "storage/dataset_manager.go"} {
